@@ -54,6 +54,25 @@ CHECKS = {
             'Impairment profile values and consistency of per-degree dicts with the topology are data and not decided.',
             'value graph (dB/linear lemmas, min/max via |x|) + decision-list/table agreement + persistent-state dataflow',
             'DESIGN.md 4 C06'),
+    'C05': ('other',
+            'Value graph of Fiber.propagate / RamanFiber.propagate: the ordered power-changing calls and their arguments '
+            'are exactly input connector + padding, the solver loss profile at the span end, output connector, once each '
+            'and identical in both classes; Fiber.loss is the sum of the same five budget terms; the Raman-off solver path '
+            'is exp(-alpha z) x lumped losses; every writer of CD/latency is additive and of PMD/PDL quadrature in the old '
+            'value (writers enumerated over gnpy/), fibre PMD, CD proportional to length, latency a function of length only.',
+            'Nothing about Raman solver numerics (low-power limit, method agreement, pumps) is decided.',
+            'value graph + call-sequence (typestate) check + writer enumeration',
+            'DESIGN.md 4 C05'),
+    'C09': ('other',
+            'Gated value graphs of compute_gain_power_and_tilt_target (all 16 mode/offset/VOA arms), target_power, '
+            'set_one_amplifier (state before and after the VOA step, per arm) and set_amplifier_voa compared with the '
+            'documented design rule: budget relation gain - dp, slope rule rounded then clamped, saturation reduction on '
+            'TOTAL design power in both modes, VOA optimisation added to gain and offset alike, and the chaining of '
+            '(dp, voa) along the OMS walk.',
+            'That propagating the design comb reproduces these powers is a composition with C04-C06 plus noise and is not '
+            'decided; round2float, span_loss, select_edfa uninterpreted here.',
+            'gated value graph (SSA with gamma nodes) + rational normal form with min/max lemmas + structural chaining check',
+            'DESIGN.md 4 C09'),
     'C13': ('other',
             'The three feasibility verdicts are extracted from the value graph of the planning functions and compared on '
             'metric (round(min_ch(snr_01nm - total_penalty), 2) of the propagated path\'s receiver), threshold (mode OSNR '
